@@ -1014,6 +1014,10 @@ Hsetlength(int32 aid, int32 length)
     if (access_rec->new_elem != TRUE)
         HGOTO_ERROR(DFE_ARGS, FAIL);
 
+    /* Giving the element a place in the file needs write access */
+    if (!(access_rec->access & DFACC_WRITE))
+        HGOTO_ERROR(DFE_DENIED, FAIL);
+
     file_rec = HAatom_object(access_rec->file_id);
     if (BADFREC(file_rec))
         HGOTO_ERROR(DFE_ARGS, FAIL);
